@@ -527,7 +527,7 @@ impl G<'_> {
 
 /// variables used by an operation (through every reachable fragment): written independently of the
 /// implementation, used only to declare the right variables
-fn collect_vars(defs_frags: &[Frag], sels: &[Sel], dirs: &[Dir], out: &mut BTreeSet<String>) {
+pub(crate) fn collect_vars(defs_frags: &[Frag], sels: &[Sel], dirs: &[Dir], out: &mut BTreeSet<String>) {
     fn dv(d: &[Dir], out: &mut BTreeSet<String>) { for x in d { av(&x.args, out); } }
     fn av(a: &[Arg], out: &mut BTreeSet<String>) {
         for x in a { match &x.value { Val::Var(n) => { out.insert(n.clone()); } Val::List(vs) | Val::Obj(vs) => { for v in vs { out.insert(v.clone()); } } _ => {} } }
@@ -630,6 +630,60 @@ pub(crate) fn gen_doc(r: &mut Rng, clean: bool) -> Vec<Def> {
     defs
 }
 
+/// Fragment graphs for the cycle rule: an acyclic chain of `k` entry fragments leading into a cycle of `m`
+/// fragments (k = 0: the operation enters the cycle directly; `close` = false: the same shape without the
+/// back edge, a valid document).  Spreads sit directly in the fragment, inside a field, inside an inline fragment
+/// with or without type condition.  `op_mode`: 0 = the operation spreads only the entry, 1 = a cycle member
+/// first and then the entry, 2 = the entry and then a cycle member, 3 = two operations (entry / cycle member).
+pub(crate) fn gen_cycle_graph(r: &mut Rng, k: usize, m: usize, close: bool, op_mode: usize) -> Vec<Def> {
+    let mut counter = 0usize;
+    let mut alias = || { counter += 1; format!("k{counter}") };
+    let wrap = |r: &mut Rng, alias: String, target: String| -> Sel {
+        let sp = Sel::Spread { frag: target, dirs: vec![] };
+        match r.below(4) {
+            0 => sp,
+            1 => Sel::Field { alias: Some(alias), name: "o".into(), dirs: vec![], args: vec![], sub: vec![sp] },
+            2 => Sel::Inline { tc: Some("A".into()), dirs: vec![], sub: vec![sp] },
+            _ => Sel::Inline { tc: None, dirs: vec![], sub: vec![Sel::Field { alias: Some(alias), name: "o".into(), dirs: vec![], args: vec![], sub: vec![sp] }] },
+        }
+    };
+    let names: Vec<String> = (0..k).map(|i| format!("E{i}")).chain((0..m).map(|i| format!("C{i}"))).collect();
+    let mut frags = vec![];
+    for (i, n) in names.iter().enumerate() {
+        let mut sels = vec![Sel::Field { alias: Some(alias()), name: "a".into(), dirs: vec![], args: vec![], sub: vec![] }];
+        let next = if i + 1 < names.len() { Some(names[i + 1].clone()) } else if close && m > 0 { Some(names[k].clone()) } else { None };
+        if let Some(t) = next { let a = alias(); let w = wrap(r, a, t); if r.chance(1, 2) { sels.push(w) } else { sels.insert(0, w) } }
+        frags.push(Frag { name: n.clone(), tc: "A".into(), dirs: vec![], sels });
+    }
+    let entry = names[0].clone();
+    let member = names[k + r.below(m.max(1)).min(names.len() - k - 1)].clone();
+    let spread_in_o = |a: String, f: &str| Sel::Field { alias: Some(a), name: "o".into(), dirs: vec![], args: vec![], sub: vec![Sel::Spread { frag: f.into(), dirs: vec![] }] };
+    let mut defs = vec![];
+    match op_mode {
+        0 => defs.push(Def::Op(Op { ty: 0, name: None, vars: vec![], dirs: vec![], sels: vec![spread_in_o(alias(), &entry)] })),
+        1 => defs.push(Def::Op(Op { ty: 0, name: None, vars: vec![], dirs: vec![], sels: vec![spread_in_o(alias(), &member), spread_in_o(alias(), &entry)] })),
+        2 => defs.push(Def::Op(Op { ty: 0, name: None, vars: vec![], dirs: vec![], sels: vec![spread_in_o(alias(), &entry), spread_in_o(alias(), &member)] })),
+        _ => {
+            defs.push(Def::Op(Op { ty: 0, name: Some("P".into()), vars: vec![], dirs: vec![], sels: vec![spread_in_o(alias(), &entry)] }));
+            defs.push(Def::Op(Op { ty: 0, name: Some("R".into()), vars: vec![], dirs: vec![], sels: vec![spread_in_o(alias(), &member)] }));
+        }
+    }
+    // fragment definitions in a random order (validation order follows the spreads, not the text)
+    while !frags.is_empty() { let i = r.below(frags.len()); let at = r.below(defs.len() + 1); defs.insert(at, Def::Frag(frags.remove(i))); }
+    defs
+}
+
+/// every (k, m, close, op_mode) shape once, then random ones
+pub(crate) fn cycle_graph_family(r: &mut Rng, extra: usize) -> Vec<Vec<Def>> {
+    let mut out = vec![];
+    for k in 0..4 { for m in 1..4 { for close in [true, false] { for mode in 0..4 { out.push(gen_cycle_graph(r, k, m, close, mode)); } } } }
+    for _ in 0..extra {
+        let (k, m, close, mode) = (r.below(4), 1 + r.below(3), r.chance(3, 4), r.below(4));
+        out.push(gen_cycle_graph(r, k, m, close, mode));
+    }
+    out
+}
+
 // ---------------------------------------------------------------- fixed inputs
 
 fn fld(name: &str, dirs: Vec<Dir>, sub: Vec<Sel>) -> Sel { Sel::Field { alias: None, name: name.into(), dirs, args: vec![], sub } }
@@ -670,6 +724,13 @@ pub(crate) fn fixed() -> Vec<Vec<Def>> {
     v.push(vec![q(vec![fld("a", vec![], vec![])]), Def::Op(Op { ty: 0, name: Some("N".into()), vars: vec![], dirs: vec![], sels: vec![fld("a", vec![], vec![])] }),
         Def::Op(Op { ty: 0, name: Some("N".into()), vars: vec![], dirs: vec![], sels: vec![fld("a", vec![], vec![])] })]);
     v.push(vec![q(vec![fld("a", vec![], vec![])]), Def::TypeSystem]);
+    // a fragment cycle entered through a fragment that is not on it (entry → loopA ⇄ loopB; outer → inner → inner)
+    let spr = |f: &str| Sel::Spread { frag: f.into(), dirs: vec![] };
+    let fr = |n: &str, sels: Vec<Sel>| Def::Frag(Frag { name: n.into(), tc: "A".into(), dirs: vec![], sels });
+    v.push(vec![q(vec![fld("o", vec![], vec![spr("entry")])]), fr("entry", vec![fld("a", vec![], vec![]), spr("loopA")]),
+        fr("loopA", vec![fld("o", vec![], vec![spr("loopB")])]), fr("loopB", vec![fld("o", vec![], vec![spr("loopA")])])]);
+    v.push(vec![q(vec![fld("o", vec![], vec![spr("outer")])]), fr("outer", vec![fld("a", vec![], vec![]), fld("o", vec![], vec![spr("inner")])]),
+        fr("inner", vec![fld("a", vec![], vec![]), fld("o", vec![], vec![spr("inner")])])]);
     // things only a schema can object to
     v.push(vec![q(vec![fld("nope", vec![], vec![fld("deeper", vec![], vec![Sel::Spread { frag: "Nope".into(), dirs: vec![] }])])])]);
     v.push(vec![Def::Op(Op { ty: 1, name: None, vars: vec![], dirs: vec![], sels: vec![fld("m", vec![], vec![fld("a", vec![], vec![])])] })]);
@@ -689,6 +750,8 @@ pub fn run(ctx: &mut Ctx) {
     let field_names: Vec<String> = ["a", "b", "o", "i", "u", "l", "e", "m", "s", "bb", "zz", "nope", "deeper", "__typename", "__schema", "__type", "queryType", "types", "name", "kind", "ofType"].iter().map(|s| s.to_string()).collect();
     let w = World { schemas, field_names };
     for d in fixed() { one(ctx, &w, &d, "fixed"); }
+    let n_cyc = if ctx.thorough { 2_000 } else { 200 };
+    for d in cycle_graph_family(&mut ctx.rng, n_cyc) { one(ctx, &w, &d, "cyclegraph"); }
     let n = if ctx.thorough { 60_000 } else { 5_000 };
     for i in 0..n {
         let clean = i % 2 == 0;
